@@ -446,6 +446,16 @@ class Engine:
                 recv.member = z3.Store(recv.member, t, z3.BoolVal(True))
                 ctx.note_mut(recv)
                 return None
+            if name == "update" and len(args) == 1 and isinstance(args[0], SSet):
+                # union: a fresh membership array, defined pointwise
+                other = args[0]
+                u = z3.Array(fresh_name(recv.name + "_u"), recv.kind.sort, z3.BoolSort())
+                x = z3.Const(fresh_name("ux"), recv.kind.sort)
+                ctx.assume(z3.ForAll([x], z3.Select(u, x) == z3.Or(z3.Select(recv.member, x), z3.Select(other.member, x))))
+                recv.member = u
+                recv.card = z3.Int(fresh_name(recv.name + "_card"))
+                ctx.note_mut(recv)
+                return None
         if isinstance(recv, SDict):
             if name == "get":
                 k = unwrap(args[0])
